@@ -174,7 +174,7 @@ def check(model, R, tier):
                     '(%d sites) goes through those global generators (no Generator/RandomState objects, OS entropy, uuid, clock); no iteration over a hash-ordered set anywhere on the numeric code; the backward '
                     'sweep order comes from a list; id()/hash() values are used for membership only.' % n_reach,
         assumptions=['NumPy legacy global RNG and Python random are deterministic functions of their seed', 'visual/graph.py (drawing) is off the numeric call graph'],
-        technique='who-may-call scan over resolved callees + local type inference of set-valued names + syntactic taint of id()/hash()')
+        technique='who-may-call scan over resolved callees + local type inference of set-valued names + taint of id()/hash() + partial evaluation of constructors (uninitialised storage)')
 
 
 # ------------------------------------------------------------------------------------------------ UNINIT
